@@ -750,7 +750,7 @@ func hpWorldRun(r *h.Report, x *hpRun) {
 			tail := strings.TrimPrefix(wr.line(), "upd 1 1 ")
 			for i := 0; i < h.Scale(12, 120); i++ {
 				s := stores[len(stores)-1-rng.Intn(216)] // three elements
-				if rng.Intn(2) == 0 { // all of them changeable: the write is accepted
+				if rng.Intn(2) == 0 {                    // all of them changeable: the write is accepted
 					s = [][]int{ty.it(0, 1, rng.Intn(2)), ty.it(1, 1, 1), ty.it(2, 1, rng.Intn(2))}
 				}
 				w.history(r, x, []string{"world", fmt.Sprintf("lset %d %s", si, hpListS(s)), fmt.Sprintf("write %d %s %s", si, tail, pairs[rng.Intn(len(pairs))])})
